@@ -115,6 +115,11 @@ func (ex *Exec) assume(c *Term) {
 		}
 		return
 	}
+	if ex.replaying() {
+		// this assumption was already found feasible on an earlier path with the same prefix
+		ex.assert(c)
+		return
+	}
 	r := ex.solver.CheckWith(c)
 	if r == "unsat" {
 		ex.prune("assumption infeasible")
@@ -125,8 +130,19 @@ func (ex *Exec) assume(c *Term) {
 	ex.assert(c)
 }
 
+// replaying reports whether execution is still inside the decision prefix shared with an earlier path:
+// everything met here was already checked when that path ran.
+func (ex *Exec) replaying() bool { return ex.pos < len(ex.decisions) }
+
 func (ex *Exec) checkAssert(c *Term, label string, fr *frame, pos tokenPos) {
 	h := ex.h
+	if ex.replaying() {
+		if c.op == "c" && !c.b {
+			ex.prune("assertion failed concretely (seen before)")
+		}
+		ex.assert(c)
+		return
+	}
 	h.stats.Asserts++
 	h.assertLabels[label]++
 	if c.op == "c" && c.b {
@@ -156,9 +172,11 @@ func (ex *Exec) checkAssert(c *Term, label string, fr *frame, pos tokenPos) {
 	if c.op == "c" {
 		ex.prune("assertion failed concretely")
 	}
-	r := ex.solver.CheckWith(c)
-	if r == "unsat" {
-		ex.prune("assertion always fails here")
+	if res != "unsat" {
+		r := ex.solver.CheckWith(c)
+		if r == "unsat" {
+			ex.prune("assertion always fails here")
+		}
 	}
 	ex.assert(c)
 }
@@ -389,8 +407,24 @@ func init() {
 			if a.op == "c" && b.op == "c" {
 				return mkBool(strings.EqualFold(a.s, b.s))
 			}
-			ex.unsupported("strings.EqualFold on symbolic strings")
-			return nil
+			if a.op == "c" {
+				a, b = b, a
+			}
+			if b.op != "c" || len(b.s) > 24 {
+				ex.unsupported("strings.EqualFold on two symbolic strings")
+			}
+			// ASCII case folding (A1): same length and every byte equal up to case
+			r := mkEq(mkStrLen(a), mkInt(int64(len(b.s))))
+			for k := 0; k < len(b.s); k++ {
+				ch := mkStrAt(a, mkInt(int64(k)))
+				lo, up := strings.ToLower(b.s[k:k+1]), strings.ToUpper(b.s[k:k+1])
+				e := mkEq(ch, mkStr(lo))
+				if up != lo {
+					e = mkOr(e, mkEq(ch, mkStr(up)))
+				}
+				r = mkAnd(r, e)
+			}
+			return r
 		},
 		"strings.Split": func(ex *Exec, fr *frame, fn *ssa.Function, args []Value, pos tokenPos) Value {
 			s, sep := asTerm(args[0]), asTerm(args[1])
